@@ -690,6 +690,11 @@ func c17driver(ctx *verifhlib.Ctx) {
 	// (8) eviction between completion and a new request
 	c17runCase(ctx, "seed-evicted-then-requested", 1, 1, 10, 60,
 		c17fixed([]c17op{D(1, 0), O("ApNew", 1), O("Feed", 0), O("ApComplete", 0), O("Evict", 0), D(2, 0), O("ApNew", 2)}), r, nil)
+	// (9) a RemoveTorrent applied between a request made while the blob is cached and that
+	// request's event: success is reported after the blob was deleted (the calls overlap; this
+	// schedule refuted a first, too strong form of the success clause of the oracle)
+	c17runCase(ctx, "seed-overlapping-removal", 1, 1, 10, 60,
+		c17fixed([]c17op{D(1, 0), O("ApNew", 1), O("Feed", 0), O("ApComplete", 0), O("Remove", 0), D(2, 0), O("ApRemove", 0), O("ApNew", 2)}), r, nil)
 	// random schedules: parameters and one forked generator per case are drawn here, in order; the
 	// cases themselves are independent worlds and run on a few workers; emitted in order
 	type job struct {
@@ -711,7 +716,7 @@ func c17driver(ctx *verifhlib.Ctx) {
 		}
 		jobs[i] = job{nb, mask, sT, lT, n, r.Fork()}
 	}
-	workers := 6
+	workers := 3
 	if v, err := strconv.Atoi(os.Getenv("VERIF_C17_WORKERS")); err == nil && v > 0 {
 		workers = v
 	}
